@@ -77,6 +77,7 @@ def main():
     if not sel:
         json.dump({"results": results, "rules_fired": {k: sorted(set(v)) for k, v in sorted(rules_fired.items())}},
                   open(os.path.join(HERE, "last_run.json"), "w"), indent=1)
+    subprocess.call([os.path.join(VERIF, "tools", "prune_work.sh")])
     bad = [r for r in results if not r[1].startswith("OK")]
     print("%d edits, %d not as expected" % (len(results), len(bad)))
     # restore evidence of the real tree is the caller's business (checks rewrite evidence on every run)
